@@ -360,6 +360,21 @@ theorem crash_inside_resume_dataoffset_torn (api : Api) (o : WOpts) (roots : Opt
       obtain ⟨e, he⟩ := resumeCore_header_refused api o roots _ (zeros o.dataPad ++ (payload roots log ++ [])) hv2 hwf' (Or.inl hne)
       rw [himg]
       exact ⟨⟨e, by simp only [resume, he]⟩, by simp only [resume, he, applyWrites, List.foldl_nil]⟩
+/-- (10) **The crash images the theorems speak about are the ones a Put produces.** `Put` issues three
+    appending writes (length prefix, CID, data: `ldWriteEvs`). Cut after `k` complete writes and `j` bytes of
+    the next, for EVERY `k` and `j`, the file is the file before the Put followed by the first `m` bytes of the
+    section, for some `m ≤` the section size — `m = 0` or the whole section is the boundary case (1), anything
+    in between the torn case (2). No other image exists. -/
+theorem crash_images_of_a_put (F : Bytes) (b : Block) (k j : Nat) :
+    ∃ m, m ≤ sectionSize b ∧
+      crashImage F (ldWriteEvs F.length [b.cid.bytes, b.data]) k j = F ++ (sectionBytes b).take m := by
+  have hflat : (uvarint ([b.cid.bytes, b.data].map List.length).sum :: [b.cid.bytes, b.data]).flatten = sectionBytes b := by
+    simp [sectionBytes, Cid.byteLen]
+  obtain ⟨m, hm, he⟩ := chunks_prefix (uvarint ([b.cid.bytes, b.data].map List.length).sum :: [b.cid.bytes, b.data]) k j
+  rw [hflat] at hm he
+  refine ⟨m, by rw [← sectionBytes_length]; exact hm, ?_⟩
+  unfold ldWriteEvs
+  rw [crashImage_chunks, List.append_assoc, he]
 /-- Non-vacuity of (6)/(7): a concrete session, header cut at 37 and at 25 bytes. -/
 example : LayoutOK 0 0 60 ∧ (32 ≤ 37 ∧ 37 ≤ 40) ∧ (24 ≤ 25 ∧ 25 ≤ 32 ∧ 60 % 256 ^ (25 - 24) ≠ 0) := by
   refine ⟨⟨by decide, by decide, by decide⟩, by decide, by decide⟩
